@@ -1183,6 +1183,8 @@ def desNodeAlone (n : NodeP) : Except Err (IRNode × List IRValue) := do
   dropped, an entry (element type and dims of the tensor) is added for every initializer without
   one, the entry of an initializer is completed from the tensor (type, leaf shape) where it says
   nothing, and the list is put in the order initializers, node outputs;
+* the entries of a value that is both a graph input and a graph output (pass-through) are merged:
+  one `Value` carries one type / shape / doc / metadata, the output entry wins (`mergeVI`);
 * quantization annotations are put in the order inputs, initializers, node outputs, graph outputs
   (an annotation list is a map keyed by tensor name; only its order changes);
 * below IR version 10 a function's value_info lives in the main graph under
@@ -1202,6 +1204,27 @@ def viHasInfo (vi : ValueInfoP) : Bool :=
 def defaultVI (t : TensorP) : ValueInfoP :=
   { name := t.name, type := .tensor (some t.dataType) (some (t.dims.map fun d => ⟨.value d, ""⟩)) "",
     doc := "", metadata := [] }
+
+/-- One `Value` carries one type / shape / doc string / metadata dict.  When a graph output names a
+graph input (pass-through) the input entry and the output entry describe the SAME value:
+serde.py:857-873 applies the output entry on top of the input entry (type, shape and doc string of
+the output entry win, metadata is merged with `dict.update`), and both entries are written from
+that value. -/
+def mergeVI (vi vo : ValueInfoP) : ValueInfoP :=
+  { name := vo.name, type := vo.type, doc := vo.doc,
+    metadata := sortEntries (dictUpdate (dictOfEntries vi.metadata) (dictOfEntries vo.metadata)) }
+
+/-- canonical form of a graph input entry -/
+def normInputVI (outputs : List ValueInfoP) (vi : ValueInfoP) : ValueInfoP :=
+  match findVI outputs vi.name with
+  | some vo => mergeVI vi vo
+  | none => normValueInfo vi
+
+/-- canonical form of a graph output entry -/
+def normOutputVI (inputs : List ValueInfoP) (vo : ValueInfoP) : ValueInfoP :=
+  match findVI inputs vo.name with
+  | some vi => mergeVI vi vo
+  | none => normValueInfo vo
 
 def normAnnot (a : AnnotP) : AnnotP := { a with params := normEntries a.params }
 
@@ -1285,7 +1308,7 @@ def normGraph : GraphP → GraphP
     let initNames := initializers.map (·.name)
     let outs := nodeOutNames nodes
     .mk name doc (normNodes nodes) (initializers.map normTensor)
-      (inputs.map normValueInfo) (outputs.map normValueInfo)
+      (inputs.map (normInputVI outputs)) (outputs.map (normOutputVI inputs))
       (normInitVIs valueInfo outputs inputNames initializers ++ normNodeVIs valueInfo outputNames outs)
       (normQuantFor quant
         (inputNames.filter (fun n => !initNames.contains n) ++ initNames
@@ -1430,8 +1453,8 @@ def wfNodes (scopes : Scopes) : List NodeP → Bool
 
 /-- graph: single assignment per scope (inputs, initializers, node outputs pairwise distinct and
 non-empty; an initializer may name an input), value_info only for non-input non-output names,
-graph outputs distinct; an output may be a graph input (pass-through) when its entry equals the
-input's entry, or an initializer (constant output); annotations for declared names only. -/
+graph outputs distinct; an output may be a graph input (pass-through, see `mergeVI`) or an
+initializer (constant output); annotations for declared names only. -/
 def wfGraph (outer : Scopes) : GraphP → Bool
   | .mk _ _ nodes initializers inputs outputs valueInfo quant metadata =>
     let inputNames := inputs.map (·.name)
@@ -1444,7 +1467,6 @@ def wfGraph (outer : Scopes) : GraphP → Bool
       && nodupStr (valueInfo.map (·.name))
       && valueInfo.all (fun vi => !inputNames.contains vi.name && !outputNames.contains vi.name)
       && nodupStr outputNames
-      && outputs.all (fun vo => !inputNames.contains vo.name || inputs.contains vo)
       && initializers.all (fun t => wfTensor t && validDType t.dataType)
       && nodupStr (quant.map (·.tensorName))
       && quant.all (fun a => names.contains a.tensorName && !a.params.isEmpty && wfEntries a.params)
@@ -1507,5 +1529,24 @@ def wfModel (m : ModelP) : Bool :=
     && (decide (m.irVersion ≥ 10) ||
         (scopeNames (m.graph.inputs.map (·.name)) (m.graph.initializers.map (·.name))
             (nodeOutNames m.graph.nodes)).all (fun n => (parseExperimentalName n).isNone))
+
+/-! ### stand-alone entry points: `from_proto(NodeProto)`, `from_proto(FunctionProto)` -/
+
+/-- the placeholder values `deserialize_node` creates for the inputs of a stand-alone node: every
+non-empty input name that is not yet known (first occurrence), in order -/
+def placeholderNames : List String → List String → List String
+  | _, [] => []
+  | names, n :: ns =>
+    if n = "" || names.contains n then placeholderNames names ns
+    else n :: placeholderNames (names ++ [n]) ns
+
+/-- a stand-alone node: its scope is made of its own outputs and the placeholders of its inputs
+(subgraphs in its attributes may capture exactly these) -/
+def wfNodeAlone (n : NodeP) : Bool :=
+  let outs := n.outputs.filter (· ≠ "")
+  nodupStr outs && wfNode [outs ++ placeholderNames outs n.inputs] n
+
+/-- a stand-alone function is serialized with its value_info and without a `model_ir_version` -/
+def wfFunctionAlone (f : FunctionP) : Bool := wfFunction 10 f
 
 end IrVerif.Serde
